@@ -9,7 +9,7 @@ _QUICK_BASES = 12
 _THOROUGH_BASES = 96
 
 SPEC = {
-    "runs": [run("e1-recogniser", "c16_b3_jaeger", "asan", _QUICK_BASES * 72 + 20000, _THOROUGH_BASES * 72 + 4000000,
+    "runs": [run("e1-recogniser", "c16_b3_jaeger", "asan", _QUICK_BASES * 72 + 20000, _THOROUGH_BASES * 72 + 3000000,
                  need_lib=False,
                  tier_params={"quick": {"enum_bases": _QUICK_BASES}, "thorough": {"enum_bases": _THOROUGH_BASES, "variants_per_case": 12}})],
     "floors": {
